@@ -75,6 +75,9 @@ func genC01(seed uint64, tier string) *plan.Plan {
 		pl.Cfg["refresh"] = 2
 		pl.Cfg["ttl"] = 5
 	}
+	if (tr == 0 || tr == 2) && r.IntN(3) == 0 {
+		pl.Cfg["maxbuf"] = []int64{0, 1, 512, 1024, 9000}[r.IntN(5)]
+	}
 	hugeTTL := false
 	if (tr == 1 || tr == 3) && !longUDP && pl.Cfg["lossy"] == 0 && r.IntN(4) == 0 {
 		// a collector whose template lifetime is "practically for ever": weeks, months, or the largest
@@ -192,6 +195,8 @@ func runC01(pl *plan.Plan, out *plan.Outcome) {
 		pl.Cfg["proto"] = 1
 	} else {
 		pl.Cfg["proto"] = 0
+		// MaxBufferSize sizes the datagram read buffer; a stream has no use for it, whatever it is set to
+		cin.MaxBufferSize = uint16(cfgOr(pl, "maxbuf", 65535))
 	}
 	if tr >= 2 {
 		cin.IsEncrypted = true
